@@ -15,7 +15,7 @@ def list_getitem(obj, idx, qual=""):
     parts = []
     for b in (idx.start, idx.stop, idx.step):
       if isinstance(b, sym.Sym):
-        cb = sym.concrete_int(b)
+        cb = sym.concretize(b)
         if cb is None:
           raise Unsupported(f"symbolic slice bound on a concrete list in {qual}")
         b = cb
@@ -25,7 +25,7 @@ def list_getitem(obj, idx, qual=""):
       parts.append(b)
     return obj[slice(*parts)]
   if isinstance(idx, sym.SInt):
-    ci = sym.concrete_int(idx)
+    ci = sym.concretize(idx)
     if ci is not None:
       idx = ci
     else:
